@@ -137,7 +137,7 @@ func (t *Trial) CheckLinearizable(finals map[int]linOut, timeout time.Duration) 
 	for _, rs := range t.Recs {
 		for i := range rs {
 			r := &rs[i]
-			if r.Kind == KGet && r.LEnter != 0 {
+			if r.Kind == KGet && r.LEnter != 0 && !r.LNF {
 				loadsByVal[r.LVal] = loadIv{r.LEnter, r.Ret}
 			}
 		}
@@ -196,7 +196,7 @@ func (t *Trial) CheckLinearizable(finals map[int]linOut, timeout time.Duration) 
 				if r.LEnter != 0 {
 					// this call ran the loader: it saw the key absent before, and may have installed afterwards
 					add(r.Key, porcupine.Operation{ClientId: w, Input: linIn{Kind: kReadMiss, Key: r.Key}, Call: r.Call, Output: linOut{}, Return: r.LEnter})
-					if observed[r.LVal] {
+					if !r.LNF && observed[r.LVal] {
 						res.Installs++
 						add(r.Key, porcupine.Operation{ClientId: w, Input: linIn{Kind: KInstall, Key: r.Key, Arg: r.LVal}, Call: r.LExit, Output: linOut{}, Return: r.Ret})
 					}
@@ -204,6 +204,11 @@ func (t *Trial) CheckLinearizable(finals map[int]linOut, timeout time.Duration) 
 				}
 				if isWaiter(r) {
 					// may be a waiter of that load: its result is the load's, not a map read
+					continue
+				}
+				if r.Err != 0 {
+					// waited for a load that answered not-found: all this call itself saw is the key absent
+					add(r.Key, porcupine.Operation{ClientId: w, Input: linIn{Kind: kReadMiss, Key: r.Key}, Call: r.Call, Output: linOut{}, Return: r.Ret})
 					continue
 				}
 				in.Kind = kRead
@@ -221,12 +226,33 @@ func (t *Trial) CheckLinearizable(finals map[int]linOut, timeout time.Duration) 
 			delAt[kv{e.Key, e.Val}] = e.T
 		}
 	}
+	returnedAsOld := map[kv]bool{}
+	for _, rs := range t.Recs {
+		for i := range rs {
+			r := &rs[i]
+			switch {
+			case r.Kind == KInvalidate && r.ROk:
+				returnedAsOld[kv{r.Key, r.RV}] = true
+			case (r.Kind == KCompute || r.Kind == KComputeIfPresent) && r.Invoked > 0 && r.SawOk && r.Dec == DecInvalidate:
+				returnedAsOld[kv{r.Key, r.SawOld}] = true
+			}
+		}
+	}
 	cid := t.Cfg.G
 	for _, e := range evs {
 		if !e.Atomic || e.Key >= t.Cfg.Keys {
 			continue
 		}
-		if e.Cause == 3 || e.Cause == 4 { // Overflow, Expiration
+		nfRemoved := false
+		if e.Cause == 1 && !returnedAsOld[kv{e.Key, e.Val}] {
+			// not returned by any Invalidate / Compute: the removal a not-found load performs
+			ok, late := t.nfRemoval(e)
+			nfRemoved = ok
+			if late != "" && res.CallbackViolation == "" {
+				res.CallbackViolation = late
+			}
+		}
+		if e.Cause == 3 || e.Cause == 4 || nfRemoved { // Overflow, Expiration, not-found load
 			ret, ok := delAt[kv{e.Key, e.Val}]
 			if !ok || ret < e.T {
 				ret = end + 1
